@@ -14,8 +14,16 @@ claim("C12", "other",
       "Trusted: clang 14 + tbfscan, the frozen operator role table (which kernel slot is the output), sympy polynomial normal form; Specx/StarPU only through declaration stubs.",
       "flag/stage/level-interval/write-set summaries from the clang AST, sympy interval normal forms", "DESIGN.md §2 C12")
 
+claim("C19", "proof",
+      "Build half of the statement: every documented configuration is generated as its own translation unit (constructs the tree with explicit/automatic block size, executes, rebuilds, exports) "
+      "and must type-check with the repository's own compiler flags - quick: a pairwise-covering subset of the 1280-configuration product, thorough: the full product with g++ plus the subset with clang++; "
+      "include-guard macros are unique across src/; thorough: the selector header builds with OpenMP+Specx+StarPU all defined (declaration stubs). "
+      "The compiler is the decision procedure, so the verdict holds for the configuration, not for a sampled input.",
+      "Trusted: g++ 12 / clang++ 14 front ends, the witness generator. Not decided: that the configurations then satisfy C01/C06/C13 (value-level).",
+      "generated must-compile witness TUs per configuration + include-guard uniqueness", "DESIGN.md §2 C19")
+
 _todo = "check not built yet in this round (see DESIGN.md §7 build order)"
-for p in ["C02","C06","C08","C09","C10","C11","C13","C14","C15","C17","C18","C19","C20"]:
+for p in ["C02","C06","C08","C09","C10","C11","C13","C14","C15","C17","C18","C20"]:
     NA[p] = _todo
 NA["C01"] = "exactly-once is a counting statement over all particle sets, heights, dimensions and groupings; no lint/effect/type argument bounds the list-builder arithmetic. Structural prerequisites are decided under C02/C03/C08/C11/C12."
 NA["C04"] = "bound on a floating-point truncation error over all positions/heights/orders: nothing about it is visible in the shape of the code (accumulate clause is under C08, code conventions under C11)."
